@@ -144,7 +144,7 @@ func (s *State) pushCall(fn *ssa.Function, args []Value, env []Value, ret retKin
 	return fr
 }
 
-var unwindCap = 70
+var unwindCap = 200000
 
 // step executes one instruction of the current thread. It returns false when
 // the state is finished (all threads done) or dead.
